@@ -178,7 +178,12 @@ func srcLinesFamily(c *core.Ctx) {
 	}
 	var all [][]string
 	mk := func() string {
-		return rng.Pick(r, []string{"\t\t", "\t\t", "  ", "\t \t", ""}) + rng.Pick(r, stLead) + rng.Pick(r, stCore) + rng.Pick(r, stTail)
+		// most lines start like a line of an ordinary Latin-1 file (the judged-as-written cases); one in five with a lead of stLead
+		lead := rng.Pick(r, []string{"", "", "", " ", "\v"})
+		if r.Intn(5) == 0 {
+			lead = rng.Pick(r, stLead)
+		}
+		return rng.Pick(r, []string{"\t\t", "\t\t", "  ", "\t \t", "\t"}) + lead + rng.Pick(r, stCore) + rng.Pick(r, stTail)
 	}
 	// small first: two lines, the byte in front of the second
 	all = append(all, []string{"\t\tA la carte", "\t\t\xa05 EUR"}, []string{"\t\tUn", "\t\t\x85Deux", "\t\tTrois"}, []string{"\t\tL1  ", "\t\tL2"}, []string{"\xa0X1", "\t\tX2"})
